@@ -16,7 +16,11 @@ RULE = ("full matrix of ml.load / loads / load_all / loads_all / dump / dumps ov
         "parser_demo.cdxml, charges_mult.cdxml) and seeded generated multi-molecule texts; file names with one dot, several dots "
         "(in a dotted directory, absolute and './relative'), an unrelated / no / another format's suffix; fmt given by keyword and "
         "by position; parser / writer name in mixed case; every call repeated after the caller edited (and shortened) the first "
-        "result; every format name of the openbabel tables without a class-level codec as an error cell. non-trivial = not an "
+        "result; every format name of the openbabel tables without a class-level codec as an error cell; the load half of the matrix again "
+        "on damaged texts (cut / garbage after a complete first block, cut or garbled first block, empty, whitespace, zero-atom "
+        "blocks) judged on 'same outcome as the class method'; zero-atom objects as dump objects; a user subclass of "
+        "ConformerEnsemble as otype; cdxml keys the drawing does not have; mode='w'/'a' next to a stream target; dump path targets "
+        "with the other native suffix / no suffix next to an explicit fmt; files compared byte for byte. non-trivial = not an "
         "error cell and the input has >=2 molecules / conformers; distinct by cell signature + input")
 ASSUMPTIONS = [
     "an unsupported format must raise ValueError; loads / loads_all(...,'cdxml') may raise NotImplementedError (documented: file source only)",
@@ -28,6 +32,10 @@ ASSUMPTIONS = [
     "only the refusal of a format openbabel does not list is judged (openbabel is not installed here)",
     "'ensemble' with load_all/loads_all is refused by design (ValueError)",
     "dump to a path with an unsupported format: only the ValueError is judged, not whether an empty file was created",
+    "damaged input: the class method's outcome (an object / a list / an exception) is the reference; where both raise the exception "
+    "types are not compared, except that an entry point must not turn another error into ValueError (the signal for an "
+    "unsupported format); a damaged-input cell counts as non-trivial when the first block of the text is complete",
+    "mode= of dump concerns file names only (documented): a stream is written at its position whatever the mode",
 ]
 REQUIRED = {"source.multi-dot-name": 500, "call.positional-fmt": 200, "call.keyword-fmt": 250, "call.parser-name-mixed-case": 500,
             "call.default-otype": 20, "target.multi-dot-name": 150, "cell.loads-again-after-edit": 100, "cell.load_all-again-after-edit": 150,
@@ -36,8 +44,14 @@ REQUIRED = {"source.multi-dot-name": 500, "call.positional-fmt": 200, "call.keyw
             "error.openbabel-parser-unlisted-format": 60,
             "cell.load": 100, "cell.load-again-after-edit": 30, "cell.load-after-file-replaced": 9, "cell.loads": 60, "cell.load_all": 60, "cell.loads_all": 40, "cell.dump": 100, "cell.dumps": 20,
             "cell.error": 40, "dump.writer-option-forwarded": 10, "dump.positioned-stream": 20, "order.cdxml-after-other-entry-points": 1,
-            "order.errors-after-other-entry-points": 1, "name-override.checked": 60, "dump.stream-left-open": 20, "dump.append-vs-truncate": 10}
-CHUNK_TIMEOUT = 600
+            "order.errors-after-other-entry-points": 1, "name-override.checked": 60, "dump.stream-left-open": 20, "dump.append-vs-truncate": 10,
+            # second gap review: damaged / empty inputs, zero-atom objects, user ensemble type, absent cdxml key, mode= next to a stream,
+            # other-native / no suffix next to an explicit fmt, bytes on disk
+            "call.user-ensemble-otype": 120, "cdxml.absent-key": 90, "damaged.class-method-raises": 1500,
+            "damaged.class-method-returns": 600, "dump.bytes-on-disk-compared": 150, "dump.stream-with-mode": 700,
+            "dump.zero-atom-object": 3, "input.damaged-or-empty": 45, "input.tail-cut-in-last-block": 15, "input.empty-text": 1,
+            "input.zero-atom-block": 2, "judge.both-raise": 10000, "target.no-suffix+fmt": 350, "target.other-native-suffix+fmt": 150}
+CHUNK_TIMEOUT = 1800        # a guard against hangs only; nothing is decided on time
 TECHNIQUE = "runtime monitoring: differential oracle, public entry points vs class-level codecs over the full call matrix"
 LEVEL_TEXT = ("The call matrix is small and is executed completely on every run for each input; each cell's result is compared "
               "(deep snapshot / exact text) with the class method it must agree with.")
@@ -50,9 +64,13 @@ def plan(tier, seed):
     specs.append({"kind": "errors"})
     specs += [{"kind": "cdxml-load_all", "file": f} for f in ("parser_demo.cdxml", "charges_mult.cdxml")]
     specs.append({"kind": "format-table"})
-    n = 8 if tier == "quick" else 64
+    specs += [{"kind": "damaged", "file": f, "fmt": fmt} for f in ("pentane_confs", "dendrobine") for fmt in ("xyz", "mol2")]
+    specs.append({"kind": "edge"})
+    # thorough: the same 384 generated inputs as 128 small chunks (each input brings two damaged variants of itself along;
+    # a chunk of 6 inputs met the watchdog at load average 500)
+    n = 8 if tier == "quick" else 128
     for i in range(n):
-        specs.append({"kind": "generated", "chunk": i, "n": 2 if tier == "quick" else 6})
+        specs.append({"kind": "generated", "chunk": i, "n": 2 if tier == "quick" else 3})
     return specs
 
 
@@ -82,6 +100,19 @@ def run_chunk(spec, ctx):
                 if base.n_atoms == 0:
                     continue
                 matrix(ctx, ("generated", spec["chunk"], j, fmt), text, fmt)
+                # the same text damaged: what the class method does with it (first object, a list, an error) the entry point does too
+                variants = damaged_variants(fmt, text, ctx.rng(spec["chunk"], j, fmt, "damage"))
+                picks = [v for v in variants if v[0].startswith("tail-")][:1] + [rng.choice(variants)]
+                for label, bad in picks:
+                    matrix(ctx, ("generated-damaged", spec["chunk"], j, fmt, label), bad, fmt, damaged=label)
+    elif spec["kind"] == "damaged":
+        fmt = spec["fmt"]
+        text = (ml.files.ROOT / f"{spec['file']}.{fmt}").read_text()
+        for rnd in range(2):
+            for label, bad in damaged_variants(fmt, text, ctx.rng("damaged", spec["file"], fmt, rnd)):
+                matrix(ctx, ("bundled-damaged", spec["file"], fmt, label, rnd), bad, fmt, damaged=label)
+    elif spec["kind"] == "edge":
+        run_edge(ctx)
     elif spec["kind"] == "cdxml-load_all":
         run_cdxml_load_all(ctx, spec["file"])
     elif spec["kind"] == "format-table":
@@ -104,6 +135,49 @@ def run_chunk(spec, ctx):
             matrix(ctx, ("bundled-in-error-chunk", "pentane_confs", "xyz"), p.read_text(), "xyz")
         ctx.count("order.errors-after-other-entry-points")
         run_errors(ctx, again="second-pass")
+
+
+def damaged_variants(fmt, text, rng):
+    """(class of damage, text) pairs made of a well-formed text: 'tail-*' keep the first block complete"""
+    lines = text.splitlines(True)
+    starts = [i for i, l in enumerate(lines) if l.startswith("@<TRIPOS>MOLECULE")] if fmt == "mol2" else []
+    if fmt == "xyz":
+        i = 0
+        while i < len(lines):
+            starts.append(i)
+            i += int(lines[i].split()[0]) + 2
+    if len(starts) < 2:
+        starts = starts + [len(lines) + starts[0]]
+        lines = lines + lines
+    first_end, last = starts[1], starts[-1]
+    out = [("tail-cut-in-last-block", "".join(lines[:rng.randint(last + 1, len(lines) - 1)])),
+           ("tail-cut-in-second-block", "".join(lines[:rng.randint(first_end + 1, min(len(lines) - 1, first_end + 12))])),
+           ("tail-garbage-after-last-block", "".join(lines) + rng.choice(["garbage\n", "12 not a block\n", "@<TRIPOS>WHAT\n?\n", "-1\n"])),
+           ("first-block-cut", "".join(lines[:rng.randint(starts[0] + 1, first_end - 1)]))]
+    k = rng.randint(starts[0], first_end - 1)
+    out.append(("first-block-garbled-line", "".join(lines[:k] + [rng.choice(["???\n", "C 1.0 x 2.0\n", "1 1 999 1\n"])] + lines[k + 1:])))
+    if fmt == "mol2" and "@<TRIPOS>BOND" in text:
+        out.append(("first-block-bond-to-absent-atom", text[:text.index("@<TRIPOS>BOND")] + "@<TRIPOS>BOND\n1 1 999 1\n"))
+    return out
+
+
+def run_edge(ctx):
+    """empty and zero-atom inputs, zero-atom objects"""
+    import molli as ml
+
+    nothing = ml.Molecule(name="nothing")
+    for fmt in ("xyz", "mol2"):
+        zero = nothing.dumps_xyz() if fmt == "xyz" else nothing.dumps_mol2()
+        for label, text in (("empty-text", ""), ("whitespace-only-text", "\n\n"), ("whitespace-only-text", "  "),
+                            ("zero-atom-block", zero), ("zero-atom-block", zero + zero)):
+            matrix(ctx, ("edge", fmt, label, len(text)), text, fmt, damaged=label)
+    sets = [[("Molecule", ml.Molecule(name="nothing")), ("Structure", ml.Structure()),
+             ("ConformerEnsemble", ml.ConformerEnsemble(ml.Molecule(name="no atoms"), n_conformers=2))],
+            [("Molecule", ml.Molecule()), ("Structure", ml.Structure(name="αβ")),
+             ("ConformerEnsemble", ml.ConformerEnsemble(ml.Molecule(name="no conformers"), n_conformers=0))]]
+    for k, objs in enumerate(sets):
+        ctx.count("dump.zero-atom-object", len(objs))
+        dump_cells(ctx, ("edge", "zero-atom-objects", k), objs, False)
 
 
 def same(ctx, case, key, a, b, **kw):
@@ -164,7 +238,9 @@ def relative(path):
     return "./" + os.path.relpath(path)
 
 
-def matrix(ctx, inp, text, fmt):
+def matrix(ctx, inp, text, fmt, damaged=None):
+    """damaged: None for a well-formed input, else the class of damage ('tail-...': the first block is complete); then the
+    class methods decide what is right -- return the first object, return a list, raise -- and the entry points do the same"""
     import io
     import molli as ml
 
@@ -177,10 +253,24 @@ def matrix(ctx, inp, text, fmt):
     for q in (podd, pnone, pwrong, pmd):
         q.write_text(text)
     prel = relative(pmd)
-    n_mols = text.count("@<TRIPOS>MOLECULE") if fmt == "mol2" else len(ml.Molecule.loads_all_xyz(text))
+    if damaged is None:
+        n_mols = text.count("@<TRIPOS>MOLECULE") if fmt == "mol2" else len(ml.Molecule.loads_all_xyz(text))
+        nt = n_mols >= 2
+    else:
+        nt = damaged.startswith("tail-")
+        ctx.count("input.damaged-or-empty")
+        ctx.count(f"input.{damaged}")
     UserMolecule = type("UserMolecule", (ml.Molecule,), {})      # a user-defined output type is an output type like any other
+    UserEnsemble = type("UserEnsemble", (ml.ConformerEnsemble,), {})
     otypes = [(DEFAULT, ml.Molecule), ("molecule", ml.Molecule), ("ensemble", ml.ConformerEnsemble), (ml.Molecule, ml.Molecule),
-              (ml.Structure, ml.Structure), (ml.ConformerEnsemble, ml.ConformerEnsemble), (UserMolecule, UserMolecule)]
+              (ml.Structure, ml.Structure), (ml.ConformerEnsemble, ml.ConformerEnsemble), (UserMolecule, UserMolecule),
+              (UserEnsemble, UserEnsemble)]
+    def attempt_cm(fn):
+        r, e = attempt(fn)
+        if damaged is not None:
+            ctx.count("damaged.class-method-raises" if e is not None else "damaged.class-method-returns")
+        return r, e
+
     for oarg, T in otypes:
         oname = "default-otype" if oarg is DEFAULT else oarg if isinstance(oarg, str) else oarg.__name__
         for name in (None, "Z"):
@@ -191,8 +281,10 @@ def matrix(ctx, inp, text, fmt):
                 okw["name"] = name
             if oarg is DEFAULT:
                 ctx.count("call.default-otype")
+            if T is UserEnsemble:
+                ctx.count("call.user-ensemble-otype")
             # ---------------- load (Path, str path, explicit fmt by keyword and by position, names with several dots)
-            want, werr = attempt(lambda: getattr(T, f"load_{fmt}")(p, name=name))
+            want, werr = attempt_cm(lambda: getattr(T, f"load_{fmt}")(p, name=name))
             for src_kind, src, args, kw in (("Path", p, (), {}), ("str", str(p), (), {}), ("Path+fmt", p, (), {"fmt": fmt}),
                                             ("odd-suffix+fmt", podd, (), {"fmt": fmt}), ("no-suffix+fmt", pnone, (), {"fmt": fmt}),
                                             ("wrong-suffix+fmt", pwrong, (), {"fmt": fmt}),
@@ -205,7 +297,7 @@ def matrix(ctx, inp, text, fmt):
                 ctx.count("cell.load")
                 if src_kind in FORM_COUNTER:
                     ctx.count(FORM_COUNTER[src_kind])
-                ctx.case(case, dkey=case, nontrivial=n_mols >= 2, sample={"call": "load", "fmt": fmt, "source": src_kind,
+                ctx.case(case, dkey=case, nontrivial=nt, sample={"call": "load", "fmt": fmt, "source": src_kind,
                                                                            "otype": oname, "name": name})
                 got, gerr = attempt(lambda: ml.load(src, *args, **okw, **kw))
                 judge(ctx, case, form_key(f"load:{fmt}:{oname}", src_kind), got, gerr, want, werr, name)
@@ -216,7 +308,7 @@ def matrix(ctx, inp, text, fmt):
                     ctx.count("cell.load-again-after-edit")
                     judge(ctx, case, f"load-again-after-editing-first-result:{fmt}:{oname}", again, aerr, want, werr, name)
             # ---------------- loads (fmt by position and by keyword)
-            want, werr = attempt(lambda: getattr(T, f"loads_{fmt}")(text, name=name))
+            want, werr = attempt_cm(lambda: getattr(T, f"loads_{fmt}")(text, name=name))
             for form, args, kw in (("text", (fmt,), {}), ("keyword-fmt", (), {"fmt": fmt}),
                                    ("parser-name-mixed-case", (fmt,), {"parser": "MOLLI"})):
                 case = inp + ("loads", form) + sig
@@ -225,7 +317,7 @@ def matrix(ctx, inp, text, fmt):
                 ctx.count("cell.loads")
                 if form in FORM_COUNTER:
                     ctx.count(FORM_COUNTER[form])
-                ctx.case(case, dkey=case, nontrivial=n_mols >= 2, sample={"call": "loads", "fmt": fmt, "otype": oname, "name": name})
+                ctx.case(case, dkey=case, nontrivial=nt, sample={"call": "loads", "fmt": fmt, "otype": oname, "name": name})
                 got, gerr = attempt(lambda: ml.loads(text, *args, **okw, **kw))
                 judge(ctx, case, form_key(f"loads:{fmt}:{oname}", form), got, gerr, want, werr, name)
                 if gerr is None and werr is None and form == "text":
@@ -234,7 +326,7 @@ def matrix(ctx, inp, text, fmt):
                     ctx.count("cell.loads-again-after-edit")
                     judge(ctx, case, f"loads-again-after-editing-first-result:{fmt}:{oname}", again, aerr, want, werr, name)
             # ---------------- load_all / loads_all
-            if T is ml.ConformerEnsemble:
+            if issubclass(T, ml.ConformerEnsemble):
                 for fnname, call in (("load_all", lambda: ml.load_all(p, otype=oarg, name=name)),
                                      ("loads_all", lambda: ml.loads_all(text, fmt, otype=oarg, name=name))):
                     case = inp + (fnname, "ensemble-refused") + sig
@@ -250,7 +342,7 @@ def matrix(ctx, inp, text, fmt):
                         ctx.violation(f"{fnname}:{fmt}:{oname}:raises-{type(gerr).__name__}-instead-of-ValueError", case=case,
                                       err=repr(gerr)[:200])
             else:
-                want, werr = attempt(lambda: getattr(T, f"load_all_{fmt}")(p, name=name))
+                want, werr = attempt_cm(lambda: getattr(T, f"load_all_{fmt}")(p, name=name))
                 for src_kind, src, args, kw in (("Path", p, (), {}), ("str", str(p), (), {}), ("odd-suffix+fmt", podd, (), {"fmt": fmt}),
                                                 ("wrong-suffix+fmt", pwrong, (), {"fmt": fmt}),
                                                 ("multi-dot-name", pmd, (), {}), ("relative-str", prel, (), {}),
@@ -262,7 +354,7 @@ def matrix(ctx, inp, text, fmt):
                     ctx.count("cell.load_all")
                     if src_kind in FORM_COUNTER:
                         ctx.count(FORM_COUNTER[src_kind])
-                    ctx.case(case, dkey=case, nontrivial=n_mols >= 2, sample={"call": "load_all", "fmt": fmt, "otype": oname, "name": name})
+                    ctx.case(case, dkey=case, nontrivial=nt, sample={"call": "load_all", "fmt": fmt, "otype": oname, "name": name})
                     got, gerr = attempt(lambda: ml.load_all(src, *args, **okw, **kw))
                     judge(ctx, case, form_key(f"load_all:{fmt}:{oname}", src_kind), got, gerr, want, werr, name, want_list=True)
                     if gerr is None and werr is None and src_kind in ("Path", "str"):
@@ -272,7 +364,7 @@ def matrix(ctx, inp, text, fmt):
                         ctx.count("cell.load_all-again-after-edit")
                         judge(ctx, case, f"load_all-again-after-editing-first-result:{fmt}:{oname}", again, aerr, want, werr, name,
                               want_list=True)
-                want, werr = attempt(lambda: getattr(T, f"loads_all_{fmt}")(text, name=name))
+                want, werr = attempt_cm(lambda: getattr(T, f"loads_all_{fmt}")(text, name=name))
                 for form, args, kw in (("text", (fmt,), {}), ("keyword-fmt", (), {"fmt": fmt}),
                                        ("parser-name-mixed-case", (fmt,), {"parser": "Molli"})):
                     case = inp + ("loads_all", form) + sig
@@ -281,7 +373,7 @@ def matrix(ctx, inp, text, fmt):
                     ctx.count("cell.loads_all")
                     if form in FORM_COUNTER:
                         ctx.count(FORM_COUNTER[form])
-                    ctx.case(case, dkey=case, nontrivial=n_mols >= 2, sample={"call": "loads_all", "fmt": fmt, "otype": oname, "name": name})
+                    ctx.case(case, dkey=case, nontrivial=nt, sample={"call": "loads_all", "fmt": fmt, "otype": oname, "name": name})
                     got, gerr = attempt(lambda: ml.loads_all(text, *args, **okw, **kw))
                     judge(ctx, case, form_key(f"loads_all:{fmt}:{oname}", form), got, gerr, want, werr, name, want_list=True)
                     if gerr is None and werr is None and form == "text":
@@ -291,16 +383,47 @@ def matrix(ctx, inp, text, fmt):
                         judge(ctx, case, f"loads_all-again-after-editing-first-result:{fmt}:{oname}", again, aerr, want, werr, name,
                               want_list=True)
     # ---------------- dump / dumps
+    if damaged is not None:
+        return
     objs = [("Molecule", ml.Molecule.loads_all_mol2(text)[0] if fmt == "mol2" else ml.Molecule.loads_all_xyz(text)[0]),
             ("Structure", ml.Structure.loads_all_mol2(text)[0] if fmt == "mol2" else ml.Structure.loads_all_xyz(text)[0]),
             ("ConformerEnsemble", ml.ConformerEnsemble.loads_mol2(text) if fmt == "mol2" else ml.ConformerEnsemble.loads_xyz(text))]
+    dump_cells(ctx, inp, objs, nt)
+
+
+def written_by_class_method(ctx, obj, ofmt, times=1):
+    """the bytes a file holds after the class method wrote the object into it (opened the way dump opens a file name)"""
+    twin = ctx.tmp / "class-method-twin.out"
+    with open(twin, "w") as fh:
+        for _ in range(times):
+            getattr(obj, f"dump_{ofmt}")(fh)
+    return twin.read_bytes()
+
+
+def dump_cells(ctx, inp, objs, nt):
+    """every dump / dumps cell for the objects given, compared with obj.dump_<fmt> / obj.dumps_<fmt>"""
+    import io
+    import molli as ml
+
     for oname, obj in objs:
         for ofmt in ("mol2", "xyz"):
-            expected = getattr(obj, f"dumps_{ofmt}")()
+            expected, xerr = attempt(lambda: getattr(obj, f"dumps_{ofmt}")())
+            if xerr is not None:
+                # the class method cannot write this object: the entry points cannot either
+                case = inp + ("dumps", oname, ofmt)
+                if ctx.want(case):
+                    ctx.count("cell.dumps")
+                    ctx.case(case, dkey=case, nontrivial=False)
+                    got, gerr = attempt(lambda: ml.dumps(obj, ofmt))
+                    if gerr is None:
+                        ctx.violation(f"dumps:{ofmt}:{oname}:returns-where-class-method-raises", case=case, err=repr(xerr)[:150])
+                continue
+            expected_b = written_by_class_method(ctx, obj, ofmt)
+            expected_b2 = written_by_class_method(ctx, obj, ofmt, times=2)
             case = inp + ("dumps", oname, ofmt)
             if ctx.want(case):
                 ctx.count("cell.dumps")
-                ctx.case(case, dkey=case, nontrivial=n_mols >= 2, sample={"call": "dumps", "fmt": ofmt, "obj": oname})
+                ctx.case(case, dkey=case, nontrivial=nt, sample={"call": "dumps", "fmt": ofmt, "obj": oname})
                 got, gerr = attempt(lambda: ml.dumps(obj, ofmt))
                 if gerr is not None:
                     ctx.violation(f"dumps:{ofmt}:{oname}:raises:{type(gerr).__name__}", case=case, err=repr(gerr)[:200])
@@ -311,7 +434,7 @@ def matrix(ctx, inp, text, fmt):
             if ofmt == "xyz" and oname != "ConformerEnsemble" and ctx.want(case):
                 ctx.count("cell.dump")
                 ctx.count("dump.writer-option-forwarded")
-                ctx.case(case, dkey=case, nontrivial=n_mols >= 2, sample={"call": "dump(..., write_header=False)", "obj": oname})
+                ctx.case(case, dkey=case, nontrivial=nt, sample={"call": "dump(..., write_header=False)", "obj": oname})
                 exp_nh = obj.dumps_xyz(write_header=False)
                 got, gerr = attempt(lambda: ml.dumps(obj, "xyz", write_header=False))
                 if gerr is not None or got != exp_nh:
@@ -337,15 +460,21 @@ def matrix(ctx, inp, text, fmt):
             if ctx.want(case):
                 ctx.count("cell.dump")
                 ctx.count("dump.positioned-stream")
-                ctx.case(case, dkey=case, nontrivial=n_mols >= 2)
+                ctx.case(case, dkey=case, nontrivial=nt)
+                # mode says how a file NAME is opened; a stream given by the caller is written where it stands whatever the mode
                 for kind in ("StringIO", "file"):
-                    for pos in (0, 7):
+                    for pos, who_s in ((0, ("entry-point", "class-method")), (7, ("entry-point", "class-method")),
+                                       (41, ("mode-w", "class-method")), (0, ("mode-w", "class-method")), (7, ("mode-a", "class-method")),
+                                       (41, ("mode-a", "class-method"))):
                         twins = []
-                        for who in ("entry-point", "class-method"):
+                        for who in who_s:
                             st = io.StringIO() if kind == "StringIO" else open(ctx.tmp / f"pos-{who}-{oname}.{ofmt}", "w+")
                             st.write("#" * 40 + "\n")
                             st.seek(pos)
+                            if who.startswith("mode-"):
+                                ctx.count("dump.stream-with-mode")
                             _, e = attempt((lambda: ml.dump(obj, st, ofmt)) if who == "entry-point"
+                                           else (lambda: ml.dump(obj, st, ofmt, mode=who[-1])) if who.startswith("mode-")
                                            else (lambda: getattr(obj, f"dump_{ofmt}")(st)))
                             where = None if e is not None or st.closed else st.tell()
                             if not st.closed:
@@ -355,14 +484,15 @@ def matrix(ctx, inp, text, fmt):
                             else:
                                 twins.append(("closed", None, None))
                         if twins[0] != twins[1]:
-                            ctx.violation(f"dump:stream:{ofmt}:not-written-at-the-streams-position-like-the-class-method", case=case,
+                            ctx.violation(f"dump:stream:{ofmt}:{who_s[0] + ':' if who_s[0] != 'entry-point' else ''}"
+                                          "not-written-at-the-streams-position-like-the-class-method", case=case,
                                           stream=kind, position=pos, entry_point=[twins[0][0], twins[0][1]],
                                           class_method=[twins[1][0], twins[1][1]])
             # stream targets
             case = inp + ("dump", "stream", oname, ofmt)
             if ctx.want(case):
                 ctx.count("cell.dump")
-                ctx.case(case, dkey=case, nontrivial=n_mols >= 2, sample={"call": "dump", "target": "stream", "fmt": ofmt, "obj": oname})
+                ctx.case(case, dkey=case, nontrivial=nt, sample={"call": "dump", "target": "stream", "fmt": ofmt, "obj": oname})
                 buf = io.StringIO()
                 buf.write("PREFIX\n")
                 _, gerr = attempt(lambda: ml.dump(obj, buf, ofmt))
@@ -399,7 +529,7 @@ def matrix(ctx, inp, text, fmt):
                         return len(t)
 
                 ctx.count("cell.dump")
-                ctx.case(case, dkey=case, nontrivial=n_mols >= 2)
+                ctx.case(case, dkey=case, nontrivial=nt)
                 sink = Sink()
                 _, e = attempt(lambda: ml.dump(obj, sink, ofmt))
                 if e is not None or "".join(sink.parts) != expected:
@@ -424,7 +554,7 @@ def matrix(ctx, inp, text, fmt):
                 if not ctx.want(case):
                     continue
                 ctx.count("cell.dump")
-                ctx.case(case, dkey=case, nontrivial=n_mols >= 2, sample={"call": "dump", "target": tkind, "fmt": ofmt, "obj": oname})
+                ctx.case(case, dkey=case, nontrivial=nt, sample={"call": "dump", "target": tkind, "fmt": ofmt, "obj": oname})
                 out = ctx.tmp / f"out-{oname}-{tkind}.{ofmt}"
                 if out.exists():
                     out.unlink()
@@ -437,11 +567,18 @@ def matrix(ctx, inp, text, fmt):
                 ctx.count("dump.append-vs-truncate")
                 if out.read_text() != expected + expected:
                     ctx.violation(f"dump:path:{ofmt}:default-mode-does-not-append", case=case)
+                elif out.read_bytes() != expected_b2:
+                    # the file on disk is compared byte for byte (no newline translation) with the one the class method writes
+                    ctx.violation(f"dump:path:{ofmt}:bytes-on-disk-differ-from-class-method", case=case, mode="default")
                 _, e3 = attempt(lambda: ml.dump(obj, tgt, mode="w"))
                 if e3 is not None:
                     ctx.violation(f"dump:path:{ofmt}:mode-w-raises:{type(e3).__name__}", case=case)
                 elif out.read_text() != expected:
                     ctx.violation(f"dump:path:{ofmt}:mode-w-does-not-truncate", case=case)
+                elif out.read_bytes() != expected_b:
+                    ctx.violation(f"dump:path:{ofmt}:bytes-on-disk-differ-from-class-method", case=case, mode="w")
+                else:
+                    ctx.count("dump.bytes-on-disk-compared")
                 # extension other than the format, explicit fmt wins
                 odd = ctx.tmp / f"odd-{oname}.txt"
                 if odd.exists():
@@ -449,11 +586,31 @@ def matrix(ctx, inp, text, fmt):
                 _, e4 = attempt(lambda: ml.dump(obj, odd, ofmt))
                 if e4 is not None or odd.read_text() != expected:
                     ctx.violation(f"dump:path:{ofmt}:explicit-fmt-with-other-suffix-fails", case=case, err=repr(e4)[:200])
+                # ... also when the suffix is the one of the other native format, and when there is no suffix at all
+                # (in a directory whose own name has a dot, too): default mode on a fresh file, then mode='w' over it
+                other = "xyz" if ofmt == "mol2" else "mol2"
+                for tform, q in (("other-native-suffix+fmt", ctx.tmp / f"geom-{oname}.{other}"),
+                                 ("no-suffix+fmt", ctx.tmp / f"coordinates-{oname}"),
+                                 ("no-suffix+fmt", dotted_dir(ctx) / f"POSCAR_like-{oname}")):
+                    if q.exists():
+                        q.unlink()
+                    qt = q if tkind == "Path" else str(q)
+                    ctx.count(f"target.{tform}")
+                    for how, call, exp_b in (("default-mode", lambda: ml.dump(obj, qt, ofmt), expected_b),
+                                             ("keyword-fmt-default-mode", lambda: ml.dump(obj, qt, fmt=ofmt), expected_b2),
+                                             ("mode-w", lambda: ml.dump(obj, qt, ofmt, mode="w"), expected_b)):
+                        _, e5 = attempt(call)
+                        if e5 is not None:
+                            ctx.violation(f"dump:path:{ofmt}:{tform}:raises:{type(e5).__name__}", case=case, call=how, err=repr(e5)[:200])
+                            break
+                        if not q.exists() or q.read_bytes() != exp_b:
+                            ctx.violation(f"dump:path:{ofmt}:{tform}:file-differs-from-class-method", case=case, call=how)
+                            break
             # path targets whose name has several dots (out.v2.xyz is an xyz file): Path, str, './relative', format from the suffix
             case = inp + ("dump", "multi-dot-target", oname, ofmt)
             if ctx.want(case):
                 ctx.count("cell.dump")
-                ctx.case(case, dkey=case, nontrivial=n_mols >= 2, sample={"call": "dump", "target": "name with several dots", "fmt": ofmt,
+                ctx.case(case, dkey=case, nontrivial=nt, sample={"call": "dump", "target": "name with several dots", "fmt": ofmt,
                                                                            "obj": oname})
                 for tkind, fname in (("Path", f"out.v2.{ofmt}"), ("str", f"{oname}.run-1.opt.{ofmt}"), ("relative-str", f"rel.a.b.{ofmt}")):
                     out = dotted_dir(ctx) / fname
@@ -464,14 +621,14 @@ def matrix(ctx, inp, text, fmt):
                     r, e = attempt(lambda: ml.dump(obj, tgt))
                     if e is not None:
                         ctx.violation(f"dump:path:{ofmt}:multi-dot-name:raises:{type(e).__name__}", case=case, target=tkind, err=repr(e)[:200])
-                    elif out.read_text() != expected:
+                    elif out.read_text() != expected or out.read_bytes() != expected_b:
                         ctx.violation(f"dump:path:{ofmt}:multi-dot-name:text-differs-from-class-method", case=case, target=tkind)
             # the other call forms: fmt by keyword, writer name in mixed case (matched case-insensitively)
             case = inp + ("dump", "call-forms", oname, ofmt)
             if ctx.want(case):
                 ctx.count("cell.dump")
                 ctx.count("cell.dumps")
-                ctx.case(case, dkey=case, nontrivial=n_mols >= 2, sample={"call": "dump / dumps, fmt= keyword, writer='Molli'", "fmt": ofmt,
+                ctx.case(case, dkey=case, nontrivial=nt, sample={"call": "dump / dumps, fmt= keyword, writer='Molli'", "fmt": ofmt,
                                                                            "obj": oname})
                 for form, args, kw in (("keyword-fmt", (), {"fmt": ofmt}), ("writer-name-mixed-case", (ofmt,), {"writer": "Molli"}),
                                        ("writer-name-mixed-case", (), {"fmt": ofmt, "writer": "MOLLI"})):
@@ -492,7 +649,7 @@ def matrix(ctx, inp, text, fmt):
                     _, e = attempt(lambda: ml.dump(obj, out, *args, mode="w", **kw))
                     if e is not None:
                         ctx.violation(f"dump:path:{ofmt}:{form}:raises:{type(e).__name__}", case=case, err=repr(e)[:200])
-                    elif out.read_text() != expected:
+                    elif out.read_text() != expected or out.read_bytes() != expected_b:
                         ctx.violation(f"dump:path:{ofmt}:{form}:text-differs-from-class-method", case=case)
 
 
@@ -512,13 +669,22 @@ def edit_result(x):
 
 def judge(ctx, case, key, got, gerr, want, werr, name, want_list=False):
     if werr is not None and gerr is not None:
-        return  # both refuse: agreement
+        # both refuse: agreement. The kind of error is not compared, except that ValueError is what the entry points answer to an
+        # unsupported format: input of a supported format that the class method cannot parse is not reported as that
+        ctx.count("judge.both-raise")
+        if isinstance(gerr, ValueError) and not isinstance(werr, ValueError):
+            ctx.violation(f"{key}:raises-ValueError-where-class-method-raises-another-kind-of-error", case=case, err=repr(gerr)[:200],
+                          class_method=repr(werr)[:200])
+        return
     if werr is not None:
-        # the class method cannot do it but the entry point returned something: only a problem if it is wrong in kind
+        # the class method refuses the input but the entry point returned something
+        ctx.violation(f"{key}:returns-where-class-method-raises", case=case, class_method=repr(werr)[:200],
+                      returned=type(got).__name__, length=len(got) if isinstance(got, list) else None)
         return
     if gerr is not None:
         ctx.violation(f"{key}:raises:{type(gerr).__name__}", case=case, err=repr(gerr)[:200])
         return
+    ctx.count("judge.both-return")
     if want_list and not isinstance(got, list):
         ctx.violation(f"{key}:list-promised-but-{type(got).__name__}-returned", case=case)
         return
@@ -597,11 +763,35 @@ def run_cdxml(ctx, again=None):
     pmd, podd = dotted_dir(ctx) / "scheme.v2.final.cdxml", ctx.tmp / "scheme.dat"
     for q in (pmd, podd):
         shutil.copyfile(p, q)
+    UserMolecule = type("UserMolecule", (ml.Molecule,), {})
+    UserEnsemble = type("UserEnsemble", (ml.ConformerEnsemble,), {})
     for oarg, T in ((DEFAULT, ml.Molecule), ("molecule", ml.Molecule), (ml.Molecule, ml.Molecule), (ml.Structure, ml.Structure),
-                    ("ensemble", ml.ConformerEnsemble)):
+                    ("ensemble", ml.ConformerEnsemble), (ml.ConformerEnsemble, ml.ConformerEnsemble), (UserMolecule, UserMolecule),
+                    (UserEnsemble, UserEnsemble)):
         oname = "default-otype" if oarg is DEFAULT else oarg if isinstance(oarg, str) else oarg.__name__
         okw = {} if oarg is DEFAULT else {"otype": oarg}
         for name in (None, "Z"):
+            # a key that the drawing does not have (a label, a position past either end, an empty label, a key of another kind):
+            # CDXMLFile[key] raises, so does load -- it does not hand out some other molecule instead
+            for kclass, key in (("absent-label", "no-such-label-in-the-drawing"), ("absent-label", ""), ("absent-label", keys[0] + " "),
+                                ("position-out-of-range", len(keys) + 1000), ("position-out-of-range", -len(keys) - 1000),
+                                ("key-of-another-kind", 1.5)):
+                case = ("cdxml", oname, name, "absent-key", kclass, key) + ((again,) if again else ())
+                if not ctx.want(case):
+                    continue
+                ctx.count("cell.load")
+                ctx.count("cdxml.absent-key")
+                ctx.case(case, dkey=case, nontrivial=False, sample={"call": "load", "fmt": "cdxml", "otype": oname, "key": key, "name": name})
+                _, werr = attempt(lambda: ml.CDXMLFile(p)[key])
+                got, gerr = attempt(lambda: ml.load(p, key=key, name=name, **okw))
+                if werr is None:
+                    continue        # the drawing has it after all: nothing to say here
+                if gerr is None:
+                    ctx.violation(f"load:cdxml:{oname}:{kclass}:returns-where-CDXMLFile-getitem-raises", case=case,
+                                  returned=type(got).__name__, formula=getattr(got, "formula", None), class_level=repr(werr)[:100])
+                elif isinstance(gerr, ValueError) and not isinstance(werr, ValueError):
+                    ctx.violation(f"load:cdxml:{oname}:{kclass}:raises-ValueError-where-CDXMLFile-getitem-raises-another-kind-of-error",
+                                  case=case, err=repr(gerr)[:150], class_level=repr(werr)[:100])
             for key in [None, 0, 1, len(keys) - 1] + keys[:6]:     # a key is a label or a position (CDXMLFile accepts both)
                 case = ("cdxml", oname, name, key) + ((again,) if again else ())
                 if not ctx.want(case):
@@ -627,7 +817,7 @@ def run_cdxml(ctx, again=None):
                 else:
                     want = None
                     # no key: the first fragment of the document, i.e. what load_all puts first ...
-                    if T is not ml.ConformerEnsemble:
+                    if not issubclass(T, ml.ConformerEnsemble):
                         ctx.count("cdxml.no-key-vs-first-of-load_all")
                         allf, aerr = attempt(lambda: ml.load_all(p, name=name, **okw))
                         if aerr is None and isinstance(allf, list) and allf:
